@@ -426,7 +426,19 @@ func (g *gen) op(b *bias, scn *Scenario) Op {
 	if g.chance(b.pReqCC) {
 		o.CC = pick(g, b.reqCCs...)
 		if g.chance(15) {
-			o.CC += ", " + pick(g, b.reqCCs...)
+			// a second directive, never the same one twice (what a repeated directive means is not defined)
+			extra := pick(g, b.reqCCs...)
+			dup := false
+			for _, a := range splitList(o.CC) {
+				for _, b2 := range splitList(extra) {
+					if strings.SplitN(a, "=", 2)[0] == strings.SplitN(b2, "=", 2)[0] {
+						dup = true
+					}
+				}
+			}
+			if !dup {
+				o.CC += ", " + extra
+			}
 		}
 	}
 	o.Hdr = g.selHeaders(res, b)
